@@ -55,6 +55,10 @@ pub struct UdpClient {
     /// SOCKS5 associations only: exchange k goes to the IPv6 twin of its target ([::1], port 9200 + t)
     #[serde(default)]
     pub v6: Vec<bool>,
+    /// SOCKS5 associations only: exchange k and k+1 (k even) are sent back to back, before either
+    /// reply is awaited - a reply then arrives after a later datagram of the association was forwarded
+    #[serde(default)]
+    pub pairs: bool,
     /// UDP remotes bound to the wildcard address only: this client reaches the remote through the
     /// host's secondary local address (127.0.0.2) instead of the primary one
     #[serde(default)]
@@ -109,6 +113,8 @@ struct ConnRes {
 struct UdpRes {
     streamed: usize,
     fillers: usize,
+    /// pairs of datagrams sent back to back on a SOCKS5 association
+    paired: usize,
     sent: usize,
     replies_ok: usize,
     lost: usize,
@@ -530,6 +536,25 @@ async fn udp_client(ci: usize, c: UdpClient, res: Rc<RefCell<Vec<UdpRes>>>, faul
         SocketAddr::from(([127, 0, 0, if c.alt_local { 2 } else { 1 }], 7100 + c.target as u16))
     };
     let mut buf = vec![0u8; 70_000];
+    // pair mode: datagram k+1 already sent with datagram k; a reply to it that came early
+    let mut present: Option<usize> = None;
+    let mut early: Option<(Vec<u8>, SocketAddr)> = None;
+    let mut early_for: Option<usize> = None;
+    let pairs = c.pairs && c.via_socks && !faulty && c.burst == 0 && c.stream_n == 0;
+    let socks_pkt = |k: usize| -> Vec<u8> {
+        let to_v6 = c.v6.get(k).copied().unwrap_or(false);
+        let target_port = if to_v6 { 9200 } else { 9100 } + tgt_of(k) as u16;
+        let mut pkt = vec![];
+        if to_v6 {
+            pkt.extend([0, 0, 0, 4]);
+            pkt.extend(std::net::Ipv6Addr::LOCALHOST.octets());
+        } else {
+            pkt.extend([0, 0, 0, 1, 127, 0, 0, 1]);
+        }
+        pkt.extend(target_port.to_be_bytes());
+        pkt.extend(udp_payload(ci, k, c.sizes[k]));
+        pkt
+    };
     for (k, n) in c.sizes.iter().enumerate() {
         let mut payload = udp_payload(ci, k, *n);
         let streaming = c.stream_n > 0 && c.burst == 0 && k + 1 == c.sizes.len() && !faulty;
@@ -571,19 +596,48 @@ async fn udp_client(ci: usize, c: UdpClient, res: Rc<RefCell<Vec<UdpRes>>>, faul
                 res.borrow_mut()[ci].junk_sent += 1;
             }
         }
-        if sock.send_to(&pkt, dest).await.is_err() {
-            res.borrow_mut()[ci].problems.push("send_to failed".into());
-            break;
+        if present == Some(k) {
+            // went out right behind datagram k-1
+            present = None;
+        } else {
+            if sock.send_to(&pkt, dest).await.is_err() {
+                res.borrow_mut()[ci].problems.push("send_to failed".into());
+                break;
+            }
+            res.borrow_mut()[ci].sent += 1;
+            if pairs && k % 2 == 0 && k + 1 < c.sizes.len() {
+                if sock.send_to(&socks_pkt(k + 1), dest).await.is_err() {
+                    res.borrow_mut()[ci].problems.push("send_to failed".into());
+                    break;
+                }
+                res.borrow_mut()[ci].sent += 1;
+                res.borrow_mut()[ci].paired += 1;
+                present = Some(k + 1);
+            }
         }
-        res.borrow_mut()[ci].sent += 1;
         // the reply: "re:" + target index + our payload
         let mut expect = format!("re{}:", tgt_of(k)).into_bytes();
         expect.extend(&payload);
         let deadline = tokio::time::Instant::now() + Duration::from_secs(8);
         let got = loop {
+            if early_for == Some(k) {
+                // the reply to this datagram overtook the one to its predecessor
+                early_for = None;
+                let (b, from) = early.take().expect("stashed reply");
+                buf[..b.len()].copy_from_slice(&b);
+                break Ok(Ok((b.len(), from)));
+            }
             match tokio::time::timeout_at(deadline, sock.recv_from(&mut buf)).await {
                 Ok(Ok((len, _))) if c.burst > 0 && buf[..len].starts_with(b"fill:") => {
                     res.borrow_mut()[ci].fillers += 1;
+                }
+                Ok(Ok((len, from))) if present == Some(k + 1) && {
+                    let mut e = format!("re{}:", tgt_of(k + 1)).into_bytes();
+                    e.extend(udp_payload(ci, k + 1, c.sizes[k + 1]));
+                    buf[..len].ends_with(&e) && !e.is_empty() && e != expect
+                } => {
+                    early = Some((buf[..len].to_vec(), from));
+                    early_for = Some(k + 1);
                 }
                 other => break other,
             }
@@ -987,6 +1041,9 @@ pub fn run(plan: &C01Plan, sched: &Sched) -> Outcome {
         }
         if c.burst > 64 && r.replies_ok > 0 {
             o.probe("udp-reply-after-a-burst-beyond-the-server-queue", 1);
+        }
+        if r.paired > 0 {
+            o.probe("udp-datagrams-sent-back-to-back-on-one-association", r.paired as u64);
         }
         if !r.done {
             o.violate("C01:udp-hang", format!("still pending at the horizon; {desc}"));
